@@ -390,3 +390,171 @@ LEMMAS['S5'] = dict(jobs=lambda ctx: [dict(keylen=n) for n in ((0, 1, 59, 60, 61
     functions=['Blake2Generator::Blake2Generator', 'getByte', 'getUInt32', 'checkData'],
     doc='BlakeGenerator == spec 3.5: state = first 60 key bytes zero padded (+ nonce in the last four bytes), hashed in place with Hash512 exactly when fewer unused bytes remain than requested, outputs are the next unused bytes (32-bit words little endian); key bytes beyond 60 have no influence',
     bound='key lengths 0,1,59,60,61,64,80 (quick) / 0..69,80,100,200; a 94-draw sequence crossing three re-hashes', symbolic='key bytes, nonce, hash outputs', stubs=['blake2b := fresh symbolic 64-byte state per call'])
+
+# ----------------------------------------------------------------------------------------------- S2 port assignment (spec 6.3.3) and the cycle map
+def spec_macro_ops():
+    """table 6.2.1 of doc/specs.md: name -> (latency, sizes, uop1 mask, uop2 mask)"""
+    txt = open(P.DOC).read(); i = txt.index('Table 6.2.1'); PORT = {'-': 0, 'P0': 1, 'P1': 2, 'P5': 4, 'P01': 3, 'P05': 5, 'P015': 7}; T = {}
+    for m in re.finditer(r'^\|`(\w+)`\|(\d+)\|([\d, ]+)\|(\S+)\|(\S+)\|\s*$', txt[i:i + 3000], re.M):
+        T[m.group(1)] = (int(m.group(2)), [int(x) for x in m.group(3).split(',')], PORT[m.group(4)], PORT[m.group(5)])
+    if len(T) != 11: raise Exception('table 6.2.1 of the specification not understood (%d rows)' % len(T))
+    return T
+
+def _map_rows(mod, fn):
+    m = re.search(r'\[(\d+) x \[3 x i32\]\]\*', mod.funcs[fn].sig)
+    if not m: raise Exception('port map parameter of %s not recognised' % fn)
+    return int(m.group(1))
+
+def _cell(arr, row, col):
+    base = (row * 3 + col) * 4
+    return z3.Concat(*[z3.Select(arr, base + k) for k in (3, 2, 1, 0)])
+
+def _fit(arr, row, uop):
+    """spec 6.3.3: a micro-op can issue in this cycle if a port it may use is free; ports are tried in the order P5, P0, P1"""
+    f5 = z3.And((uop & 4) != 0, _cell(arr, row, 2) == 0); f0 = z3.And((uop & 1) != 0, _cell(arr, row, 0) == 0); f1 = z3.And((uop & 2) != 0, _cell(arr, row, 1) == 0)
+    return z3.Or(f5, f0, f1), z3.If(f5, z3.BitVecVal(2, 64), z3.If(f0, z3.BitVecVal(0, 64), z3.BitVecVal(1, 64)))
+
+def _mark(arr, row, col, uop):
+    base = (row * 3 + col) * 4
+    for k in range(4): arr = z3.Store(arr, base + k, z3.Extract(8 * k + 7, 8 * k, uop))
+    return arr
+
+def run_S2(ctx, case):
+    q = Q(60); mod = _ss_setup(ctx); what = case['what']; npaths = [0]
+    T = spec_macro_ops(); maxlat = max(v[0] for v in T.values()); REQ = P.SS_LATENCY + maxlat
+    if what == 'table':
+        # the macro-op objects the generator schedules == table 6.2.1 (latency, size, ports); two-uop macro-ops use disjoint port sets
+        it, _ = _ss_interp(mod); Lm = resolve(NamedT('class.randomx::MacroOp', mod)).layout()[0]
+        NAME = {'sub_rr': 'Sub_rr', 'xor_rr': 'Xor_rr', 'lea_sib': 'Lea_sib', 'imul_rr': 'Imul_rr', 'ror_ri': 'Ror_ri', 'add_ri': 'Add_ri', 'xor_ri': 'Xor_ri', 'mov_rr': 'Mov_rr', 'mul_r': 'Mul_r', 'imul_r': 'Imul_r', 'mov_ri': 'Mov_ri64'}
+        def chk(c, t):
+            q.n += 1; q.unsat += bool(c); q.sat += (not c)
+            if not c: q.failed.append((t, {}))
+        for sn, cn in sorted(NAME.items()):
+            g = [k for k in it.mem.objs if re.fullmatch(r'@_ZN7randomx7MacroOp\d+%sE' % cn, k)]
+            if len(g) != 1: raise Exception('macro-op object %s not found' % cn)
+            f = [it.mem.load(Ptr(g[0], Lm[k]), 4) for k in (1, 2, 3, 4)]
+            if not all(is_c(x) for x in f): raise Exception('macro-op object %s not constant after static initialisation' % cn)
+            lat, sizes, u1, u2 = T[sn]
+            chk(f[1] == lat, 'macro-op %s: latency %d, table 6.2.1 says %d' % (sn, f[1], lat)); chk(f[0] in sizes, 'macro-op %s: size %d, table 6.2.1 says %s' % (sn, f[0], sizes))
+            chk((f[2], f[3]) == (u1, u2), 'macro-op %s: micro-op ports (%d,%d), table 6.2.1 says (%d,%d)' % (sn, f[2], f[3], u1, u2))
+            chk(not (f[2] & f[3]), 'macro-op %s: its two micro-ops use disjoint port sets' % sn)
+        fnu = _fn(mod, 'scheduleUopILb1E'); rows = _map_rows(mod, fnu)
+        return result('S2', 'table', q, paths=1, detail='11 macro-ops; cycle map has %d rows, cycles up to %d must be schedulable (latency %d + longest macro-op %d)' % (rows, REQ - 1, P.SS_LATENCY, maxlat))
+    commit = case['commit']; W = case['W']
+    fn = _fn(mod, ('scheduleUopILb%dE' if what == 'uop' else 'scheduleMopILb%dE') % commit); rows = _map_rows(mod, fn)
+    def one(fk):
+        it, _ = _ss_interp(mod, fk); pc = fk['pc']
+        pm = it.mem.mkarr('portBusy', rows * 12); arr0 = it.mem.objs['portBusy']['arr']
+        cyc = z3.BitVec('cycle', 32); pc += [cyc >= 0, cyc < REQ]
+        if what == 'uop':
+            u1 = z3.BitVec('uop', 32); u2 = z3.BitVecVal(0, 32); pc += [u1 >= 1, u1 <= 7]; st = cyc; two = False; elim = False
+        else:
+            mop = it.mem.alloc(32, 'mop'); Lm = resolve(NamedT('class.randomx::MacroOp', mod)).layout()[0]
+            u1 = z3.BitVec('uop1', 32); u2 = z3.BitVec('uop2', 32); dep = z3.BitVec('depCycle', 32); b1 = lambda c: z3.If(c, z3.BitVecVal(1, 1), z3.BitVecVal(0, 1)); depf = it.decide(z3.BitVec('dependent', 1))
+            if case.get('pair'): u1, u2 = [z3.BitVecVal(x, 32) for x in case['pair']]; elim = False; two = True      # two micro-ops: port masks concrete (one job per pair of disjoint masks)
+            else: u2 = z3.BitVecVal(0, 32); elim = it.decide(b1(u1 == 0)); two = False
+            pc += [u1 >= 0, u1 <= 7, dep >= 0, dep < REQ]
+            it.mem.store(mop, z3.BitVec('mop_name', 64), 8); it.mem.store(Ptr('mop', Lm[1]), z3.BitVec('mop_size', 32), 4); it.mem.store(Ptr('mop', Lm[2]), z3.BitVec('mop_latency', 32), 4)
+            it.mem.store(Ptr('mop', Lm[3]), u1, 4); it.mem.store(Ptr('mop', Lm[4]), u2, 4); it.mem.store(Ptr('mop', Lm[5]), 1 if depf else 0, 1)
+            st = z3.If(dep > cyc, dep, cyc) if depf else cyc
+        st64 = z3.SignExt(32, st)
+        fits = []
+        for j in range(W):
+            a, col1 = _fit(arr0, st64 + j, u1)
+            if two: b, _c = _fit(arr0, st64 + j, u2); a = z3.And(a, b)
+            fits.append(z3.And(st64 + j < REQ, a))
+        # bound of this lemma: the first cycle in which the macro-op can issue lies within W cycles of the start and below latency+longest macro-op
+        if not elim: pc += [z3.Or(fits)]
+        r = it.call(fn, [u1, pm, cyc] if what == 'uop' else [mop, pm, cyc, dep]); npaths[0] += 1
+        exp = z3.BitVecVal(-1, 32)
+        for j in reversed(range(W)): exp = z3.If(fits[j], st + j, exp)
+        if elim: exp = st
+        tag = '%s commit=%d %s' % (what, commit, 'eliminated' if elim else 'two micro-ops' if two else 'one micro-op')
+        q.prove(pc, bv(r, 32) == exp, tag + ': returns the first cycle >= start in which a permitted port is free for every micro-op (P5, P0, P1 order), never "no port" below cycle %d' % REQ)
+        arrF = it.mem.objs['portBusy']['arr']; e64 = z3.SignExt(32, exp); arrE = arr0
+        if commit and not elim:
+            _a, c1 = _fit(arr0, e64, u1); arrE = _mark(arr0, e64, c1, u1)
+            if two: _b, c2 = _fit(arrE, e64, u2); arrE = _mark(arrE, e64, c2, u2)
+        q.prove(pc, arrF == arrE, tag + (': exactly the chosen port(s) of that cycle become busy' if commit and not elim else ': the port map is unchanged'))
+        extent_checks(q, pc, it.mem, prefix=tag + ' extent')
+    res, nq = explore(one, limit=4000); q.n += nq
+    return result('S2', '%s%s commit=%d W=%d' % (what, ' ports %s' % (case['pair'],) if case.get('pair') else '', commit, W), q, paths=npaths[0], detail='%d paths; map rows %d, required %d' % (npaths[0], rows, REQ))
+
+def jobs_S2(ctx):
+    quick = ctx['tier'] == 'quick'; W = 4 if quick else 10; Wm = 3 if quick else 5
+    pairs = [(a, b) for a in range(1, 8) for b in range(1, 8) if not (a & b)]
+    if quick: pairs = [(2, 4), (4, 2), (3, 4), (1, 6)]
+    return [dict(what='table')] + [dict(what=w, commit=c, W=W) for w in ('uop', 'mop') for c in (0, 1)] + [dict(what='mop', commit=c, W=Wm, pair=pr) for pr in pairs for c in (0, 1)]
+
+LEMMAS['S2'] = dict(jobs=jobs_S2, run=run_S2, units=['ss'], functions=['scheduleUop<false>', 'scheduleUop<true>', 'scheduleMop<false>', 'scheduleMop<true>', 'MacroOp table (static initialisers)'],
+    doc='port assignment == spec 6.3.3: for every port map, start cycle, dependency cycle and macro-op (0, 1 or 2 micro-ops on any port subsets, two micro-ops on disjoint subsets as in table 6.2.1) the scheduler returns the first cycle >= start (start = max(cycle, depCycle) for a dependent macro-op) in which every micro-op finds a free permitted port, tries ports in the order P5, P0, P1, marks exactly the chosen ports when committing and nothing otherwise; the cycle map is large enough for every cycle below RANDOMX_SUPERSCALAR_LATENCY + the longest macro-op latency of table 6.2.1 (a dependent macro-op can start that late), so "no port" is never answered there; the macro-op objects equal table 6.2.1',
+    bound='start cycles 0..latency+3; the first fitting cycle within W = 4 (one micro-op) / 3 (two micro-ops) cycles of the start in the quick tier, 10 / 5 thorough; port map contents symbolic (z3 array); one micro-op: port mask symbolic; two micro-ops: one job per pair of disjoint port masks (4 pairs quick incl. the (P1,P5) of mul_r / imul_r, all 12 thorough)', symbolic='port map, micro-op port masks, cycle, depCycle, dependent flag',
+    stubs=[], outside='which start cycles the decode loop of generateSuperscalar passes (the loop itself is not executed symbolically); first fits further than W cycles from the start; the look-forward stalls of operand selection can push a start beyond latency+3, where the reference answers "no port" and the specification is silent')
+
+# ----------------------------------------------------------------------------------------------- S3 address register (spec 7.3 step 6): the tail of generateSuperscalar from a cut point
+GEN_CALLS = re.compile(r'scheduleMop|scheduleUop|createForSlot|selectSource|selectDestination|toInstrE|fetchNext|DecoderBuffer|Blake2Generator|RegisterInfoC\d|SuperscalarInstruction')
+def _tail_entry(mod, fn):
+    """the part of generateSuperscalar after the generation loop: the blocks from which no call of the generator machinery is reachable; its single entry block is the cut point"""
+    f = mod.funcs[fn]; succ = {}; bad = set()
+    for lab, blk in f.blocks.items():
+        succ[lab] = re.findall(r'label %([\w.$-]+)', blk[-1])
+        if any(re.search(r'\b(call|invoke)\b', l) and GEN_CALLS.search(l) for l in blk): bad.add(lab)
+    rb = set(bad); ch = True
+    while ch:
+        ch = False
+        for lab in f.blocks:
+            if lab not in rb and any(x in rb for x in succ[lab]): rb.add(lab); ch = True
+    T = [l for l in f.order if l not in rb]
+    entries = [l for l in T if any(l in succ[p] for p in rb)]
+    if len(entries) != 1 or not bad: raise Exception('tail of generateSuperscalar not recognised (%d entry blocks)' % len(entries))
+    return entries[0], T
+
+def run_S3(ctx, case):
+    from engine.irsym import phi_nodes, IntT
+    K = case['n']; q = Q(60); mod = _ss_setup(ctx); fn = _fn(mod, 'generateSuperscalarERNS_18SuperscalarProgram'); entry, T = _tail_entry(mod, fn); f = mod.funcs[fn]; npaths = [0]
+    mm = [re.search(r'setSizeEj\(.*, i32 noundef (%[\w.$-]+)\)', l) for lab in T for l in f.blocks[lab]]; mm = [x for x in mm if x]
+    if len(mm) != 1 or mm[0].group(1) not in phi_nodes(f, entry): raise Exception('programSize not recognised at the cut point')
+    sizev = mm[0].group(1); psz = resolve(NamedT('class.randomx::SuperscalarProgram', mod)).size()
+    def one(fk):
+        it, _ = _ss_interp(mod, fk); pc = fk['pc']
+        prog = it.mem.alloc(psz, 'prog'); it.mem.objs['prog']['rechunk'] = True; gen = it.mem.alloc(80, 'gen')
+        n = z3.BitVec('programSize', 32); pc += [n == K]; ib = {}       # one job per program size
+        for i in range(K):
+            for j in range(8): ib[8 * i + j] = z3.BitVec('instr%d_byte%d' % (i, j), 8); it.mem.store(Ptr('prog', 8 * i + j), ib[8 * i + j], 1)
+        dst = [z3.ZeroExt(24, ib[8 * i + 1]) for i in range(K)]; src = [z3.ZeroExt(24, ib[8 * i + 2]) for i in range(K)]
+        pc += [z3.ULT(x, 8) for x in dst + src]          # S1: operands are r0..r7
+        def havoc(name, t):
+            t = resolve(t)
+            if name == sizev: return n
+            if not isinstance(t, (IntT,)) and not hasattr(t, 'w'): raise Exception('value %s computed before the cut point is not a scalar' % name)
+            return z3.BitVec('cut_' + name.strip('%'), t.w)
+        seen = {}
+        for key, sub in (('addr', 'SuperscalarProgram18setAddressRegisterEi'), ('size', 'SuperscalarProgram7setSizeEj')):
+            nm = _fn(mod, sub)
+            def rec(s, a, key=key, nm=nm):
+                seen[key] = a[1]; h = s.hooks.pop(nm); r = s.call(nm, a); s.hooks[nm] = h; return r
+            it.hooks[nm] = rec
+        it.call_at(fn, entry, [prog, gen], havoc); npaths[0] += 1
+        # spec 7.3 step 6 / reference: dependency chain of a register = 1 + the longer of the chains of the destination and (if different) the source of the instruction writing it
+        chain = [z3.BitVecVal(0, 32)] * 8
+        def sel(c, r): 
+            v = c[7]
+            for k in range(6, -1, -1): v = z3.If(r == k, c[k], v)
+            return v
+        for i in range(K):
+            d, s_ = dst[i], src[i]; cd = sel(chain, d) + 1; cs = z3.If(s_ != d, sel(chain, s_) + 1, z3.BitVecVal(0, 32)); nv = z3.If(cd > cs, cd, cs)
+            chain = [z3.If(z3.And(i < n, d == k), nv, chain[k]) for k in range(8)]
+        if 'addr' not in seen or 'size' not in seen: q.n += 1; q.sat += 1; q.failed.append(('setAddressRegister / setSize not called', {})); return
+        a = bv(seen['addr'], 32)
+        q.prove(pc, z3.And(a >= 0, a < 8), 'the address register is one of r0..r7')
+        q.prove(pc, z3.And([sel(chain, a) >= chain[k] for k in range(8)]), 'the address register has the longest dependency chain of the program (spec 7.3 step 6)')
+        q.prove(pc, bv(seen['size'], 32) == n, 'program size = number of generated instructions')
+        q.prove(pc, z3.And([bv(it.mem.load(Ptr('prog', j), 1), 8) == ib[j] for j in range(8 * K)]), 'the generated instructions are not modified after the generation loop')
+        extent_checks(q, pc, it.mem, prefix='extent')
+    res, nq = explore(one, limit=5000); q.n += nq
+    return result('S3', 'programs of %d instructions' % K, q, paths=npaths[0], detail='%d paths; cut point = block %%%s of generateSuperscalar (%d tail blocks)' % (npaths[0], entry, len(T)))
+
+LEMMAS['S3'] = dict(jobs=lambda ctx: [dict(n=k) for k in range(0, 5 if ctx['tier'] == 'quick' else 8)], run=run_S3, units=['ss'], functions=['generateSuperscalar (from the end of the generation loop to the return)', 'SuperscalarProgram::operator()', 'setSize', 'setAddressRegister', 'std::max<int>'],
+    doc='address register == spec 7.3 step 6: for every instruction list the register passed to setAddressRegister has the longest dependency chain (chain of a destination = 1 + max(chain of destination, chain of a different source)); the size recorded is the number of generated instructions and the instructions are not modified after the loop',
+    bound='programs of 0..4 (quick) / 0..7 instructions (one job per size); the real code is executed from a cut point: the entry of the loop-free-of-generator-calls tail of generateSuperscalar, every value computed before it arbitrary', symbolic='program size, all instruction bytes (dst, src in r0..r7 by S1), every scalar live across the cut, stack contents',
+    stubs=[], outside='longer programs (the chain computation is a fold over the instruction list: the same loop body per instruction); how ties between equally long chains are resolved (the specification is silent; the reference takes the lowest index)')
